@@ -3,10 +3,10 @@
    Wire format: atoms are decimal integers, lists are parenthesised.
    All decoding of cases into model types happens inside the extracted Coq
    code; this file only converts text <-> Model.sexp. *)
-open Model
+module M = Model
 
 (* ---- decimal string <-> positive, without native-int limits ---- *)
-let positive_of_decimal (s : string) : positive =
+let positive_of_decimal (s : string) : M.positive =
   (* s: non-empty digits, value >= 1 *)
   let digits = Array.init (String.length s) (fun i -> Char.code s.[i] - 48) in
   let n = Array.length digits in
@@ -22,11 +22,11 @@ let positive_of_decimal (s : string) : positive =
   (* !bits is MSB first, head is 1 *)
   match !bits with
   | [] -> failwith "positive_of_decimal: zero"
-  | _ :: rest -> List.fold_left (fun p b -> if b = 1 then XI p else XO p) XH rest
+  | _ :: rest -> List.fold_left (fun p b -> if b = 1 then M.XI p else M.XO p) M.XH rest
 
-let decimal_of_positive (p : positive) : string =
+let decimal_of_positive (p : M.positive) : string =
   let rec bits p acc = match p with
-    | XH -> 1 :: acc | XO q -> bits q (0 :: acc) | XI q -> bits q (1 :: acc) in
+    | M.XH -> 1 :: acc | M.XO q -> bits q (0 :: acc) | M.XI q -> bits q (1 :: acc) in
   let bs = bits p [] in (* MSB first *)
   let small = List.length bs <= 60 in
   if small then string_of_int (List.fold_left (fun a b -> a * 2 + b) 0 bs)
@@ -40,20 +40,20 @@ let decimal_of_positive (p : positive) : string =
     String.concat "" (List.rev_map string_of_int !digits)
   end
 
-let z_of_string (s : string) : z =
-  if s = "0" || s = "-0" then Z0
-  else if s.[0] = '-' then Zneg (positive_of_decimal (String.sub s 1 (String.length s - 1)))
-  else Zpos (positive_of_decimal s)
+let z_of_string (s : string) : M.z =
+  if s = "0" || s = "-0" then M.Z0
+  else if s.[0] = '-' then M.Zneg (positive_of_decimal (String.sub s 1 (String.length s - 1)))
+  else M.Zpos (positive_of_decimal s)
 
 let string_of_z = function
-  | Z0 -> "0" | Zpos p -> decimal_of_positive p | Zneg p -> "-" ^ decimal_of_positive p
+  | M.Z0 -> "0" | M.Zpos p -> decimal_of_positive p | M.Zneg p -> "-" ^ decimal_of_positive p
 
 (* ---- parser ---- *)
-let parse (s : string) : sexp =
+let parse (s : string) : M.sexp =
   let n = String.length s in
   let pos = ref 0 in
   let rec skip () = if !pos < n && (s.[!pos] = ' ' || s.[!pos] = '\r') then (incr pos; skip ()) in
-  let rec item () : sexp =
+  let rec item () : M.sexp =
     skip ();
     if !pos >= n then failwith "eof"
     else if s.[!pos] = '(' then begin
@@ -64,18 +64,18 @@ let parse (s : string) : sexp =
         if !pos >= n then failwith "unclosed"
         else if s.[!pos] = ')' then incr pos
         else (acc := item () :: !acc; loop ()) in
-      loop (); L (List.rev !acc)
+      loop (); M.L (List.rev !acc)
     end else begin
       let st = !pos in
       while !pos < n && s.[!pos] <> ' ' && s.[!pos] <> '(' && s.[!pos] <> ')' do incr pos done;
-      A (z_of_string (String.sub s st (!pos - st)))
+      M.A (z_of_string (String.sub s st (!pos - st)))
     end in
   item ()
 
-let rec print (b : Buffer.t) (x : sexp) : unit =
+let rec print (b : Buffer.t) (x : M.sexp) : unit =
   match x with
-  | A z -> Buffer.add_string b (string_of_z z)
-  | L l ->
+  | M.A z -> Buffer.add_string b (string_of_z z)
+  | M.L l ->
     Buffer.add_char b '(';
     List.iteri (fun i y -> if i > 0 then Buffer.add_char b ' '; print b y) l;
     Buffer.add_char b ')'
@@ -86,7 +86,7 @@ let () =
      while true do
        let line = input_line stdin in
        Buffer.clear b;
-       (try print b (dispatch (parse line))
+       (try print b (M.dispatch (parse line))
         with Stack_overflow -> Buffer.clear b; Buffer.add_string b "(-998)"
            | Failure m -> Buffer.clear b; Buffer.add_string b "(-997)"; prerr_endline m);
        print_string (Buffer.contents b); print_newline ()
